@@ -196,6 +196,14 @@ def stepLine (d : DState) (n : Nat) (line : String) : IO (DState × List String)
             (match atIdx f.pts (parseNat! j) with
              | .ok p => .ok { s with frames := s.frames.set i { f with pts := f.pts.set (parseNat! j) (updPoint p xs) } }
              | .throw e => .throw e s | .ub k => .ub k)
+          | ["ptname", j, nm] =>
+            (match atIdx f.pts (parseNat! j) with
+             | .ok p => .ok { s with frames := s.frames.set i { f with pts := f.pts.set (parseNat! j) (p.setName (X nm)) } }
+             | .throw e => .throw e s | .ub k => .ub k)
+          | ["chname", k, j, nm] =>
+            (match (atIdx f.subs (parseNat! k)).bind fun sf => (atIdx sf (parseNat! j)).bind fun c => .ok (sf, c) with
+             | .ok (sf, c) => .ok { s with frames := s.frames.set i { f with subs := f.subs.set (parseNat! k) (sf.set (parseNat! j) (c.setName (X nm))) } }
+             | .throw e => .throw e s | .ub k => .ub k)
           | ["ch", k, j, x] =>
             (match (atIdx f.subs (parseNat! k)).bind fun sf => (atIdx sf (parseNat! j)).bind fun c => .ok (sf, c) with
              | .ok (sf, c) => .ok { s with frames := s.frames.set i { f with subs := f.subs.set (parseNat! k) (sf.set (parseNat! j) { c with v := (parseF x).getD 0 }) } }
